@@ -306,6 +306,20 @@ pub fn run(tier: &str, only: Option<String>) -> i32 {
         }
     }
 
+    // what each call returns alone, in a fresh process of its own: the yardstick of (b) and (d).
+    // (Whether that is what the format prescribes is the business of the properties about the
+    // format; it is only counted here.)
+    let alone: Vec<Vec<u8>> = (0..N_CALLS)
+        .map(|c| {
+            let out = std::process::Command::new(&me).arg("C18-seq").arg(c.to_string()).stderr(std::process::Stdio::null()).output();
+            match out {
+                Ok(o) if o.status.success() => String::from_utf8_lossy(&o.stdout).lines().next().map(unhex).unwrap_or_else(|| b"<no output>".to_vec()),
+                _ => b"<the process of the single call died>".to_vec(),
+            }
+        })
+        .collect();
+    run.stats.add("calls_whose_result_alone_is_what_the_model_prescribes", alone.iter().zip(&exp).filter(|(a, e)| a == e).count() as u64);
+
     // (b) call histories, each in a fresh process
     let depth = if thorough { 4 } else { 3 };
     let seqs: Vec<Vec<usize>> = sequences(depth)
@@ -342,11 +356,11 @@ pub fn run(tier: &str, only: Option<String>) -> i32 {
             for (pos, (c, obs)) in q.iter().zip(&lines).enumerate() {
                 st.transitions += 1;
                 st.validated += 1;
-                if *obs != exp[*c] {
+                if *obs != alone[*c] {
                     st.violate(
                         format!("C18 call-history call='{}' position={pos} after={:?}", CALL_NAMES[*c], &q[..pos].iter().map(|x| CALL_NAMES[*x]).collect::<Vec<_>>()),
                         key.clone(),
-                        json!({"sequence": q.iter().map(|x| CALL_NAMES[*x]).collect::<Vec<_>>(), "position": pos, "returned": hex(obs), "alone_and_by_the_model": hex(&exp[*c])}),
+                        json!({"sequence": q.iter().map(|x| CALL_NAMES[*x]).collect::<Vec<_>>(), "position": pos, "returned": hex(obs), "alone": hex(&alone[*c])}),
                     );
                     return;
                 }
@@ -480,7 +494,7 @@ pub fn run(tier: &str, only: Option<String>) -> i32 {
             st.add("free_running_samples(supplementary, sampled)", 1);
             for l in String::from_utf8_lossy(&out.stdout).lines() {
                 let p: Vec<&str> = l.split(' ').collect();
-                let ok = p.len() == 3 && p[1].parse::<usize>().map(|c| unhex(p[2]) == exp[c]).unwrap_or(false);
+                let ok = p.len() == 3 && p[1].parse::<usize>().map(|c| unhex(p[2]) == alone[c]).unwrap_or(false);
                 if !ok {
                     st.violate(
                         format!("C18 free-running threads: call '{}' returned something else under contention", p.get(1).and_then(|c| c.parse::<usize>().ok()).map(|c| CALL_NAMES[c]).unwrap_or("?")),
@@ -612,7 +626,7 @@ pub fn run(tier: &str, only: Option<String>) -> i32 {
         run.caps_hit.push("Miri data-race run not performed (VRACE_DIR not provided)".into());
     }
     run.stats.add("call_sequences_in_fresh_processes", seqs.len() as u64);
-    run.rule = format!("(a) every interleaving (shuttle DFS, no preemption bound) of 2{} threads each doing one of 7 calls, under three hook filters (string/ref tables; record open/finish and context creation; field writes/reads), metadata statics initialised under contention in every schedule; (b) all {} sequences of depth <= {} over 11 calls (one fails half-way through a record, one fills the reference table, one cites a reference that was never introduced), each in a fresh process; (c) every value of the universe encoded twice from the same instance; (f) for every row of the type table a fresh process that uses that row first and then every row once, compared row by row with a fresh process that uses every row once (all ordered pairs of first-used and later type). Oracle: every call returns what it returns alone and what the reference model prescribes. Non-trivial = schedules with >= 2 threads, sequences with >= 2 calls.", if thorough { " and 3" } else { "" }, seqs.len(), depth);
+    run.rule = format!("(a) every interleaving (shuttle DFS, no preemption bound) of 2{} threads each doing one of 7 calls, under three hook filters (string/ref tables; record open/finish and context creation; field writes/reads), metadata statics initialised under contention in every schedule; (b) all {} sequences of depth <= {} over 11 calls (one fails half-way through a record, one fills the reference table, one cites a reference that was never introduced), each in a fresh process; (c) every value of the universe encoded twice from the same instance; (f) for every row of the type table a fresh process that uses that row first and then every row once, compared row by row with a fresh process that uses every row once (all ordered pairs of first-used and later type). Oracle: every call returns what the same call returns alone in a fresh process. Non-trivial = schedules with >= 2 threads, sequences with >= 2 calls.", if thorough { " and 3" } else { "" }, seqs.len(), depth);
     run.bounds = json!({"threads": if thorough { 3 } else { 2 }, "sequence_depth": depth});
     run.extra.insert("supplementary_sampled_part".into(), json!("(d) 200 / 2000 fresh processes, 8 free-running OS threads each released by a barrier; this part SAMPLES schedules of the operating system and is not part of the exhaustive claim; (e) 4 / 48 Miri runs (one deterministic schedule per seed) of 3 / 4 real threads doing first-use and steady-state calls, with Miri's data-race detector as the monitor for unsynchronised accesses that the cooperative scheduler of (a) cannot see - also sampled"));
     run.assumptions = vec![
